@@ -11,7 +11,7 @@
 From Coq Require Import String List ZArith NArith Bool.
 Import ListNotations.
 From Selfies Require Import Base Generated Lex Atoms Grammar Decoder StateFacts IndexSpec IndexCode Reader DocGrammar DecoderBasics
-  CompatFacts DecoderInv DecoderTree DecoderSum TokFacts DeriveOk WriterSim WriterFinal RingCount CompatTotal WfSpec NopFacts DocFinal DocAccept.
+  CompatFacts DecoderInv DecoderTree DecoderSum TokFacts DeriveOk WriterSim WriterFinal RingCount CompatTotal WfSpec NopFacts DocFinal DocAccept Hanging.
 Local Open Scope string_scope.
 Local Open Scope Z_scope.
 
@@ -115,6 +115,16 @@ Proof.
   destruct (decoder_total_ok_c T (render_frags frs) false attribute Hq (frags_ok_of_symbols _ false Hs)) as [[o Ho]|Hd]; congruence.
 Qed.
 
+(* "... or the string has an unclosed bracket": whatever else the string contains, a fragment whose symbols do not end
+   with a closed bracket makes the decoder raise DecoderError *)
+Theorem C02_unclosed_bracket_rejected : forall T s attribute,
+  (exists c, assoc (lit "?") T = Some c) -> symbols_short s -> unclosed s ->
+  decoder T s false attribute = Err DecoderError.
+Proof. intros T s attribute Hq Hs Hu. apply unclosed_rejected; [exact Hq|now apply digits_ok_of_symbols|exact Hu]. Qed.
+
+Example C02_unclosed_example : unclosed (lit "[C][=O].[N][C") /\ unclosed (lit "[C][O]C").
+Proof. split; [exists (lit "[N][C")|exists (lit "[C][O]C")]; split; vm_compute; auto. Qed.
+
 (* non-vacuity of the rejection side: a string with a symbol outside the grammar in a reached position *)
 Example C02_rejection_example :
   let frs := [[(lit "C", false); (lit "=C", false); (lit "Xx", false); (lit "O", false)]] in
@@ -165,6 +175,7 @@ Print Assumptions C02_decoder_refines_grammar.
 Print Assumptions C02_decoder_refines_grammar_up_to_order.
 Print Assumptions C02_rejected_exactly_when.
 Print Assumptions C02_rejection_refines_grammar.
+Print Assumptions C02_unclosed_bracket_rejected.
 Print Assumptions C02_rejection_is_decoder_error_partial.
 Print Assumptions C02_grammar_strings_accepted_partial.
 Print Assumptions C02_reached_unknown_symbol_rejected_partial.
